@@ -634,7 +634,18 @@ func (ex *Exec) rangeIter(v Value) Value {
 		if x != nil {
 			it.keys = append(it.keys, x.entries...)
 			if ex.cfg.ReverseMaps && len(it.keys) > 1 {
-				if ex.Choice(2) == 1 {
+				// per range statement (thorough tier), or one decision per path: every map of the path is iterated in
+				// insertion order, or every one in reverse (quick tier: 2 variants instead of 2^ranges)
+				rev := false
+				if ex.cfg.ReverseMapsPerRange {
+					rev = ex.Choice(2) == 1
+				} else {
+					if ex.mapOrder == 0 {
+						ex.mapOrder = 1 + ex.Choice(2)
+					}
+					rev = ex.mapOrder == 2
+				}
+				if rev {
 					for i, j := 0, len(it.keys)-1; i < j; i, j = i+1, j-1 {
 						it.keys[i], it.keys[j] = it.keys[j], it.keys[i]
 					}
